@@ -395,12 +395,15 @@ class MafHeader(MutableMapping):
         lines: List[str],
         validation_stringency: ValidationStringency = None,
         logger: logging.Logger = Logger.RootLogger,
+        first_line_number: int = 1,
     ) -> 'MafHeader':
         """
         :param lines: a sequence of lines
         :param validation_stringency: optionally the validation stringency to
         use, otherwise use the default (Silent)
         :param logger the logger to which to write errors
+        :param first_line_number: the 1-based number, in the input they were
+        taken from, of the first of the lines
         :return: a MafHeader
         """
 
@@ -410,7 +413,7 @@ class MafHeader(MutableMapping):
             header.validation_errors.append(error)
 
         for line_number, line in enumerate(lines):
-            line_number = line_number + 1  # 1-based
+            line_number = line_number + first_line_number  # 1-based
             record, error = MafHeaderRecord.from_line(line, line_number)
             if error:
                 assert record is None
@@ -455,6 +458,8 @@ class MafHeader(MutableMapping):
         :param logger the logger to which to write errors
         :return: a MafHeader
         """
+        # the header lines are numbered as they are in the reader's input
+        first_line_number = line_reader.line_number() + 1
         lines = list()
         while True:
             line = line_reader.peek_line()
@@ -463,7 +468,10 @@ class MafHeader(MutableMapping):
             lines.append(line_reader.read_line())
 
         return cls.from_lines(
-            lines=lines, validation_stringency=validation_stringency, logger=logger
+            lines=lines,
+            validation_stringency=validation_stringency,
+            logger=logger,
+            first_line_number=first_line_number,
         )
 
     @classmethod
